@@ -14,6 +14,9 @@
 (*          the maximum supply and negative ones are refused               *)
 (*  target  a listed workspace (key class, size, v1 / v2): address and     *)
 (*          binding target are the chain library's for that key and size   *)
+(*  listen  the gRPC server behind the gateway (api/server.go): the        *)
+(*          gateway's admission is the only way in from another host, so   *)
+(*          the gRPC listener itself is bound to the loopback address only *)
 (***************************************************************************)
 EXTENDS Integers, Sequences, FiniteSets, TLC
 
@@ -63,7 +66,10 @@ RenderCases == {[kind |-> "render", mass |-> a, mw |-> b, neg |-> FALSE] : a \in
 TargetCases == {[kind |-> "target", api |-> "v1", key |-> k, size |-> s] : k \in {"k1", "k2", "k3"}, s \in {24, 26, 28, 30, 32, 34, 36, 38, 40}}
           \cup {[kind |-> "target", api |-> "v2", key |-> k, size |-> s] : k \in {"k1", "k2", "k3"}, s \in {32, 33, 34, 35}}
 
-Cases == AdmitCases \cup RenderCases \cup TargetCases
+(* ------------------------------ listen ------------------------------ *)
+ListenCases == {[kind |-> "listen", server |-> "grpc"]}
+
+Cases == AdmitCases \cup RenderCases \cup TargetCases \cup ListenCases
 NoCase == [kind |-> "none"]
 
 \* what the specification fixes for a case
@@ -72,6 +78,7 @@ Expect(c) ==
     [] c.kind = "render" -> IF c.neg \/ ~InRange(c.mass, c.mw) THEN [ok |-> FALSE, text |-> ""]
                             ELSE [ok |-> TRUE, text |-> Render(c.mass, c.mw)]
     [] c.kind = "target" -> [same |-> TRUE]
+    [] c.kind = "listen" -> [bound |-> {"lo4"}]
 
 Init == case = NoCase /\ verdict = NoCase
 Next == \E c \in Cases : case = NoCase /\ case' = c /\ verdict' = Expect(c)
